@@ -162,9 +162,13 @@ BASE_ATOMS = {2: [(0.0, 0.0), (6.0, 0.0), (0.0, 7.0), (-5.0, -5.0)],
               3: [(0.0, 0.0, 0.0), (6.0, 0.0, 1.0), (0.0, 7.0, -2.0), (-5.0, -5.0, 0.5)]}
 
 
+UNSORTED = ["q2", "q10", "q1", "b"]  # ids whose order in the register is not their alphabetical order ("q10" < "q2")
+
+
 def h_coords(shape):
     dims = shape["dims"]
     n, nsym = shape["n"], shape["nsym"]
+    nm = (lambda i: UNSORTED[i]) if shape.get("unsorted") else (lambda i: "q%d" % i)
 
     def h(inp):
         from pulser.exceptions.sequence import AtomsNumberError, DistanceError, RadiusError
@@ -190,7 +194,7 @@ def h_coords(shape):
             arr = real_np().empty(dims, dtype=object)
             for k in range(dims):
                 arr[k] = p[k]
-            coords["q%d" % i] = pm.AbstractArray(arr) if any(is_sym(v) for v in p) else pm.AbstractArray(real_np().array(p, dtype=float))
+            coords[nm(i)] = pm.AbstractArray(arr) if any(is_sym(v) for v in p) else pm.AbstractArray(real_np().array(p, dtype=float))
         try:
             dev._validate_coords(coords, kind="atoms")
             res = ("ok", None)
@@ -242,13 +246,14 @@ def h_coords(shape):
             obs.append(("k1:distance_error_has_cause", AND(NOT(too_many), any_bad_pos)))
             reported = {tuple(p) for p in res[1]}
             for (i, j) in bad_def:
-                rep = ("q%d" % i, "q%d" % j) in reported
+                rep = (nm(i), nm(j)) in reported or (nm(j), nm(i)) in reported
                 obs.append(("k1:offending_pairs_exact", AND(IMPLIES(rep, bad_pos[(i, j)]), IMPLIES(bad_def[(i, j)], rep))))
-            obs.append(("k1:offending_pairs_wellformed", all(p[0] < p[1] for p in reported)))
+            order = {nm(i): i for i in range(n)}
+            obs.append(("k1:offending_pairs_wellformed", all(p[0] in order and p[1] in order and order[p[0]] < order[p[1]] for p in reported)))
         if res[0] == "radius":
             obs.append(("k1:radius_error_has_cause", AND(NOT(too_many), NOT(any_bad_def), any_far_pos)))
             for i in far_def:
-                rep = ("q%d" % i) in res[1]
+                rep = nm(i) in res[1]
                 obs.append(("k1:offending_atoms_exact", AND(IMPLIES(rep, far_pos[i]), IMPLIES(far_def[i], rep))))
         return obs
 
@@ -271,6 +276,12 @@ def h_layout(shape):
         except (ValueError, TypeError):
             raise core.Infeasible()
         obs = []
+        if shape.get("history"):
+            # the verdict is a function of (device, layout) alone: the same layout was accepted by a more permissive device before
+            from pulser.devices import MockDevice
+
+            MockDevice.validate_layout(lay)
+            mk_device(inp, shape, dims=2, max_layout_filling=fill, min_layout_traps=1, max_layout_traps=None).validate_layout(lay)
         try:
             dev.validate_layout(lay)
             ok = True
@@ -468,6 +479,10 @@ def kernels(tier):
     # four atoms (pair bookkeeping differs from the 3-atom case: condensed-vector index <-> pair)
     ks.append(("coords", dict(dims=2, n=4, nsym=1, mind=True, maxr=False, maxn=False)))
     ks.append(("coords", dict(dims=2, n=4, nsym=0, mind=True, maxr=False, maxn=False, shift=True)))
+    # ids that are not in alphabetical order (the offenders are named by position in the register, not by sorted id)
+    for n, nsym in ((2, 1), (3, 1), (4, 1)):
+        for mind, maxr in ((True, False), (False, True)):
+            ks.append(("coords", dict(dims=2, n=n, nsym=nsym, mind=mind, maxr=maxr, maxn=False, unsorted=True)))
     # atoms on one axis: distances are exact in binary64, so the thresholds themselves (==) are decided too
     for n in (1, 2):
         for mind in (True, False):
@@ -476,6 +491,7 @@ def kernels(tier):
     for ntraps, nq in ((4, 2), (5, 3), (9, 4)):
         for maxt in (True, False):
             ks.append(("layout", dict(ntraps=ntraps, nq=nq, maxt=maxt)))
+            ks.append(("layout", dict(ntraps=ntraps, nq=nq, maxt=maxt, history=True)))
     for mind in (0.0, 1.0):
         for rng in (2, 0.00001):
             ks.append(("layout_sym", dict(mind=mind, range=rng)))
